@@ -28,6 +28,12 @@ class Str(Sort):
         self.maxlen = maxlen
 
 
+class Word(Sort):
+    """A string of lower-case ASCII letters [a-z]* (structured piece: split/strip/lower shortcuts apply)."""
+    def __init__(self, minlen=0, maxlen=None):
+        self.minlen, self.maxlen = minlen, maxlen
+
+
 class Opt(Sort):
     def __init__(self, inner, absent=False):
         self.inner = inner
@@ -143,6 +149,14 @@ def build(I, sort, hint):
         v = I.fresh(STR, hint)
         if sort.maxlen is not None:
             I.p.assume(z3.Length(v.t) <= sort.maxlen)
+        return v
+    if isinstance(sort, Word):
+        v = I.fresh(STR, hint)
+        I.p.assume(z3.InRe(v.t, z3.Star(z3.Range('a', 'z'))))
+        I.p.assume(z3.Length(v.t) >= sort.minlen)
+        if sort.maxlen is not None:
+            I.p.assume(z3.Length(v.t) <= sort.maxlen)
+        v.parts = [OpaqueStr(v.t, alpha=True)]
         return v
     if isinstance(sort, Opt):
         return SOpt(z3.Bool(I.p.fresh_name(hint + '_isnone')), build(I, sort.inner, hint), sort.absent)
